@@ -30,17 +30,18 @@ func (n *verifC30Node) FetchBlockHashByNum(ctx context.Context, blockNum int64) 
 // blocks and reorganised the top 0..3 stored blocks; one hash fetch may fail. After a successful update the tracker
 // mirrors the node's chain exactly.
 func VerifC30Poll() {
-	const n = 3
-	adv := verif_nondet_range("node.advancedBy", 0, 4)
-	fork := verif_nondet_range("node.reorgDepth", 0, 3) // how many of the newest stored blocks now have another hash on the node
+	n := verif_param("blocks_to_save", 3)
+	maxAdv := verif_param("max_advance", 4)
+	adv := verif_nondet_range("node.advancedBy", 0, maxAdv)
+	fork := verif_nondet_range("node.reorgDepth", 0, n) // how many of the newest stored blocks now have another hash on the node
 	node := &verifC30Node{latest: verifC30Base + int64(adv), hashes: map[int64]string{}}
-	for h := int64(verifC30Base - 4); h <= verifC30Base+4; h++ {
+	for h := int64(verifC30Base - n - 1); h <= int64(verifC30Base+maxAdv); h++ {
 		node.hashes[h] = verif_nondet_string("node.hash", 1)
 	}
 	if verif_nondet_bool("node.fetchFails") {
-		node.fail = verifC30Base + int64(verif_nondet_range("node.failAt", -3, 4))
+		node.fail = verifC30Base + int64(verif_nondet_range("node.failAt", -n, maxAdv))
 	}
-	ct := &ChainTracker{blocksToSave: n, latestBlockNum: verifC30Base, iChainFetcherWrapper: node, blockCheckpointDistance: 1000}
+	ct := &ChainTracker{blocksToSave: uint64(n), latestBlockNum: verifC30Base, iChainFetcherWrapper: node, blockCheckpointDistance: 1000}
 	for i := 0; i < n; i++ {
 		h := int64(verifC30Base - n + 1 + i)
 		hash := node.hashes[h]
@@ -63,7 +64,7 @@ func VerifC30Poll() {
 	verif_assert("holds-exactly-blocks-to-save", len(ct.blocksQueue) == n)
 	ok := len(ct.blocksQueue) == n
 	for i := 0; ok && i < n; i++ {
-		h := newLatest - n + 1 + int64(i)
+		h := newLatest - int64(n) + 1 + int64(i)
 		verif_assert("consecutive-heights-ending-at-latest", ct.blocksQueue[i].Block == h)
 		verif_assert("stored-hash-is-node-hash", ct.blocksQueue[i].Hash == node.hashes[h])
 	}
